@@ -712,6 +712,8 @@ pub fn recovery(trace: &[Value]) -> Vec<Value> {
         newp.sort_by_key(|x| (x["sp"].as_i64().unwrap_or(0), x["pn"].as_i64().unwrap_or(0)));
         // the datagrams of this transmit, in order, with the in-flight bytes they added
         let mut dgl: Vec<Value> = Vec::new();
+        // packets the wire decoder finds ack-eliciting that the connection does not hold as such
+        let mut untracked: Vec<i64> = Vec::new();
         if ev == "Tx" {
             let size_of: std::collections::HashMap<(i64, i64), (i64, bool)> =
                 b.iter().map(|x| ((x.0, x.1), (x.2, x.3))).collect();
@@ -744,6 +746,13 @@ pub fn recovery(trace: &[Value]) -> Vec<Value> {
                         if !in_a.contains(&key) {
                             infl += sz;
                             ae |= *a && *sz > 0;
+                        }
+                    }
+                    let pathish = names.contains(&"PATH_CHALLENGE") || names.contains(&"PATH_RESPONSE") || names.contains(&"CONNECTION_CLOSE");
+                    if p["ae"] == true && !pathish && key.0 >= 0 && !in_a.contains(&key) {
+                        match size_of.get(&key) {
+                            Some((sz, a)) if *a && *sz > 0 => {}
+                            _ => untracked.push(key.0),
                         }
                     }
                 }
@@ -782,7 +791,7 @@ pub fn recovery(trace: &[Value]) -> Vec<Value> {
         let d = |k: &str| post["stats"][k].as_i64().unwrap_or(0) - pre["stats"][k].as_i64().unwrap_or(0);
         let zacc_change = pre["zk"] != post["zk"] || pre["zacc"] != post["zacc"];
         let retry = ev == "Rx" && e["otypes"].as_str().unwrap_or("").contains('R');
-        v.push(json!({"ev":"Step","kind":ev,"t":e["t"],"new":newp,"dgl":dgl,"left":left,"acked":acked,"disc":disc,
+        v.push(json!({"ev":"Step","kind":ev,"t":e["t"],"new":newp,"dgl":dgl,"untracked":untracked,"left":left,"acked":acked,"disc":disc,
             "dlost":d("lost") + d("lprobe"),"lost":post["stats"]["lost"],"cev":post["stats"]["cev"],
             "ifb":post["path"]["ifb"],"ifae":post["path"]["ifae"],
             "pifb":if has_prev { post["prev"]["ifb"].clone() } else { json!(-1) },
